@@ -171,8 +171,13 @@ YearFrac(s1, s2, basis) ==
               [] basis \in {0, 4} ->
                     IF ~Plain30(p) \/ ~Plain30(q) THEN Open
                     ELSE Rat((q[1] - p[1]) * 360 + (q[2] - p[2]) * 30 + (q[3] - p[3]), 360)
-              [] basis = 1 -> \* actual/actual stated exactly only within one calendar year
-                    IF p[1] = q[1] THEN Rat(sb - sa, YearLen(p[1])) ELSE Open
+              [] basis = 1 -> \* actual/actual: within one calendar year the length of that year; a period of at most one year that
+                    \* crosses a new year: 366 when it contains a 29 February (its end included), else 365; longer periods: open
+                    IF p[1] = q[1] THEN Rat(sb - sa, YearLen(p[1]))
+                    ELSE IF q[1] = p[1] + 1 /\ (p[2] > q[2] \/ (p[2] = q[2] /\ p[3] >= q[3])) THEN
+                         LET leapIn(y) == YearLen(y) = 366 /\ sa <= YMDToSerial(y, 2, 29) /\ YMDToSerial(y, 2, 29) <= sb
+                         IN Rat(sb - sa, IF leapIn(p[1]) \/ leapIn(q[1]) THEN 366 ELSE 365)
+                    ELSE Open
               [] OTHER -> Open
 
 (* ---------------------------------------------------------------------- *)
